@@ -57,6 +57,11 @@ TReset == /\ IsEv("Reset")
 TAlloc    == IsEv("Alloc")    /\ Alloc(Tr[l].d)                            /\ last'.res = Tr[l].r
 TSet      == IsEv("Set")      /\ WellFormedKey(Key(Tr[l]))
                               /\ Set(Tr[l].d, Key(Tr[l]), Tr[l].v)         /\ last'.res = Tr[l].r
+\* (SetHex: the value given as a hexadecimal string - the same as Set; SetBad: the string is not hexadecimal)
+TSetHex   == IsEv("SetHex")   /\ WellFormedKey(Key(Tr[l])) /\ BaseOf(Tr[l].t) = "opaque"
+                              /\ Set(Tr[l].d, Key(Tr[l]), Tr[l].v)         /\ last'.res = Tr[l].r
+TSetBad   == IsEv("SetBad")   /\ WellFormedKey(Key(Tr[l])) /\ BaseOf(Tr[l].t) = "opaque"
+                              /\ SetRefused(Tr[l].d, Key(Tr[l]))           /\ last'.res = Tr[l].r
 TSetAlias == IsEv("SetAlias") /\ WellFormedKey(Key(Tr[l])) /\ WellFormedKey(Key2(Tr[l]))
                               /\ BaseOf(Tr[l].t) = BaseOf(Tr[l].t2)
                               /\ SetAlias(Tr[l].d, Key(Tr[l]), Key2(Tr[l])) /\ last'.res = Tr[l].r
@@ -70,7 +75,7 @@ TIter     == IsEv("Iter")     /\ Iterate(Tr[l].d)                          /\ Tr
                               /\ VisitsExactlyOnce(Tr[l].ks, last'.res)
 TFree     == IsEv("Free")     /\ Free(Tr[l].d)                             /\ last'.res = Tr[l].r
 
-Explained == TReset \/ TAlloc \/ TSet \/ TSetAlias \/ TGet \/ TDelete \/ TDup \/ TImport
+Explained == TReset \/ TAlloc \/ TSet \/ TSetHex \/ TSetBad \/ TSetAlias \/ TGet \/ TDelete \/ TDup \/ TImport
              \/ TCopy \/ TCmp \/ TIter \/ TFree
 
 \* what the specification would have answered (diagnostics of a rejection)
